@@ -170,8 +170,11 @@ func (d *FormatDecoder) Next() (interface{}, error) {
 	// If we previously returned a reader, make sure we advance all the way in
 	// case the caller didn't read it all.
 	if d.advance != nil {
-		io.Copy(ioutil.Discard, d.advance)
+		_, err := io.Copy(ioutil.Discard, d.advance)
 		d.advance = nil
+		if err != nil { // the stream ended inside the content that is skipped here
+			return nil, err
+		}
 	}
 	hdr, err := d.r.ReadHeader()
 	if err != nil {
